@@ -37,6 +37,19 @@ use serde::{Deserialize, Serialize};
 use std::collections::{BTreeMap, BTreeSet, HashMap, HashSet};
 use vcore::{pick, Failure};
 
+thread_local! {
+	static OBSERVED_ACTIVE: std::cell::Cell<bool> = std::cell::Cell::new(false);
+}
+
+/// true while the engine is inside a chain call / event pump of the observed node (used to attribute panics)
+pub fn observed_node_active() -> bool {
+	OBSERVED_ACTIVE.with(|c| c.get())
+}
+
+fn set_active(v: bool) {
+	OBSERVED_ACTIVE.with(|c| c.set(v));
+}
+
 /// `channelmonitor::LATENCY_GRACE_PERIOD_BLOCKS` (crate-private there): a closed channel's monitor fails an
 /// HTLC back once the *inbound* HTLC expires within this many blocks, whatever happened on chain.
 const LATENCY_GRACE_PERIOD_BLOCKS: u32 = 3;
@@ -247,7 +260,18 @@ pub fn compare(a: &Snap, b: &Snap) -> Result<&'static str, (String, String)> {
 	cmp!(htlc, "htlc-resolutions");
 	cmp!(balances, "balances");
 	cmp!(spendable, "spendable-outputs");
-	cmp!(pursued, "pursued-claims");
+	if a.pursued != b.pursued {
+		let sa: BTreeSet<&String> = a.pursued.iter().collect();
+		let sb: BTreeSet<&String> = b.pursued.iter().collect();
+		let name = if sa.is_subset(&sb) {
+			"pursued-claims/dropped-by-first"
+		} else if sb.is_subset(&sa) {
+			"pursued-claims/dropped-by-second"
+		} else {
+			"pursued-claims"
+		};
+		return Err((name.to_string(), format!("outputs being claimed: {:?}\n   vs {:?}", a.pursued, b.pursued)));
+	}
 	Ok("full")
 }
 
@@ -643,6 +667,7 @@ pub struct Runner {
 	relevant: HashSet<Txid>,
 	know: BTreeSet<String>,
 	was_buried: HashSet<Txid>,
+	bcast_cur: usize,
 	all_hashes: HashSet<[u8; 32]>,
 	expiries: Vec<u32>,
 	salt: u32,
@@ -657,6 +682,7 @@ fn quiet_pump_rounds() -> usize {
 impl Runner {
 	/// Build the world, run the traffic prefix and the closure. Identical in every replica.
 	pub fn setup(sc: &Scenario, debug: bool) -> Runner {
+		set_active(false);
 		let mut spec = sc.spec.clone();
 		spec.deferred = false;
 		let mut sim = spec.build(false);
@@ -708,6 +734,7 @@ impl Runner {
 			relevant: HashSet::new(),
 			know: BTreeSet::new(),
 			was_buried: HashSet::new(),
+			bcast_cur: 0,
 			all_hashes,
 			expiries,
 			salt: 1000,
@@ -764,6 +791,14 @@ impl Runner {
 
 	/// Process O's events and forwards right now and check what it concluded against the chain it was told.
 	fn pump_o(&mut self) -> Result<bool, Failure> {
+		let was = observed_node_active();
+		set_active(true);
+		let r = self.pump_o_inner();
+		set_active(was);
+		r
+	}
+
+	fn pump_o_inner(&mut self) -> Result<bool, Failure> {
 		let o = self.o;
 		let mut progress = false;
 		if !self.sim.process_events(o).is_empty() {
@@ -774,8 +809,22 @@ impl Runner {
 			progress = true;
 		}
 		self.sim.w.nodes[o].chain_monitor.added_monitors.lock().unwrap().clear();
+		self.note_own_broadcasts();
 		self.obs.scan(&self.sim)?;
 		Ok(progress)
+	}
+
+	/// transactions O itself broadcast that descend from a funding output are channel transactions in every
+	/// replica, whether or not this replica was ever shown them in a block
+	fn note_own_broadcasts(&mut self) {
+		let o = self.o;
+		while self.bcast_cur < self.sim.broadcasts[o].len() {
+			let tx = self.sim.broadcasts[o][self.bcast_cur].clone();
+			self.bcast_cur += 1;
+			if self.is_relevant(&tx) {
+				self.relevant.insert(tx.compute_txid());
+			}
+		}
 	}
 
 	/// deliver / forward / process events until nothing moves (no reconnects, no chain activity)
@@ -1192,6 +1241,13 @@ impl Runner {
 
 	/// Move O's client towards the global chain as the plan step says.
 	fn sync_o(&mut self, plan: &Plan, ps: &PStep, force: bool, trace: Option<&Trace>) -> Result<(), Failure> {
+		set_active(true);
+		let r = self.sync_o_inner(plan, ps, force, trace);
+		set_active(false);
+		r
+	}
+
+	fn sync_o_inner(&mut self, plan: &Plan, ps: &PStep, force: bool, trace: Option<&Trace>) -> Result<(), Failure> {
 		let have = self.o_chain_hashes();
 		let want: Vec<Block> = if plan.final_only {
 			let fin = &trace.expect("final-only plans need the finished trace").final_hashes;
@@ -1279,6 +1335,13 @@ impl Runner {
 	/// the set of outputs O is currently trying to claim: ask the chain monitor to rebroadcast its pending claims
 	/// and read the inputs (or, for anchor channels, the bump events)
 	fn probe_pursued(&mut self) -> Result<Vec<String>, Failure> {
+		set_active(true);
+		let r = self.probe_pursued_inner();
+		set_active(false);
+		r
+	}
+
+	fn probe_pursued_inner(&mut self) -> Result<Vec<String>, Failure> {
 		let o = self.o;
 		self.pump_o()?;
 		let before = self.sim.broadcasts[o].len();
